@@ -31,8 +31,8 @@ CLAIMED = {
    note="A theorem cannot exhibit thread interleavings or uninitialised reads of the real C; those parts are differential testing on the schedules this machine produces. The static scan covers the default build configuration (gcc -O2, x86-64).",
    tech="Lean 4 decide over translator-regenerated symbol/static/import tables + differential threaded / heap-perturbed runs"),
  "C15": dict(cat="proof", ref="§8 C15",
-   text="Kernel-checked over the template table regenerated from lib/vorbisenc.c + lib/modes/*.h on every run: every array the set-up code indexes with the base setting (is / is+1) is long enough in every shipped template (C15_tables, 468 obligations by decide +kernel), maps have mappings+1 points (C15_maps_sized); for every request (any rational, ±inf, NaN) a chosen template yields 0 <= is <= mappings-1 (C15_select); the decision table of the return codes (C15_codes); one-step calls succeed completely (frozen set-up, requested channels/rate, 1..255 channels) or leave the info cleared (C15_clean). Tied to the C by an argument grid dense at every template edge and at every map point ±ulp, channels -1..300, NaN/inf qualities, bitrate triples, RATEMANAGE2 sets and other ctl numbers before/after setup_init: return code, template number, (int)base_setting, flags, channels/rate compared with the model; successful set-ups then run analysis_init, headerout and encode under ASan/UBSan; disagreements on control requests are escalated by a search that replays them in front of stressed managed encodes. Found and fixed F14 (NaN bias/damping accepted).",
-   note="The float interpolation weight del is assumed in [0,1) inside an interval (probed at every map point ±1..2 ulp, (int)base_setting compared); hi->req for VBR is taken from the implementation. psy/envelope/mapping float set-up (F8 class) is covered by sanitizer runs only. ctl requests other than RATEMANAGE2_SET: codes and memory safety only.",
+   text="Kernel-checked over the template table regenerated from lib/vorbisenc.c + lib/modes/*.h on every run: every array the set-up code indexes with the base setting (is / is+1) is long enough in every shipped template (C15_tables, 468 obligations by decide +kernel), maps have mappings+1 points (C15_maps_sized); for every request (any rational, ±inf, NaN) a chosen template's integer base setting, computed with the C's exact float arithmetic (Vorbis/F32.lean), satisfies is+1 <= mappings (C15_base_in_interval, C15_select_in_bounds — false of the unrepaired code: finding F15); the decision table of the return codes (C15_codes); one-step calls succeed completely (frozen set-up, requested channels/rate, 1..255 channels) or leave the info cleared (C15_clean). Tied to the C by an argument grid dense at every template edge and at every map point ±ulp, channels -1..300, NaN/inf qualities, bitrate triples, RATEMANAGE2 sets and other ctl numbers before/after setup_init: return code, template number, (int)base_setting, flags, channels/rate compared with the model; successful set-ups then run analysis_init, headerout and encode under ASan/UBSan; disagreements on control requests are escalated by a search that replays them in front of stressed managed encodes. Found and fixed F14 (NaN bias/damping accepted) and F15 (float rounding carries the base setting to 'mappings': out-of-bounds table read for quality 0.99999982 at 22.05 kHz — found because the theorem was false by decide).",
+   note="The float arithmetic of get_setup_template is modelled exactly on rationals (r32/r64 rounding; normal range only) and compared with the C at every map point ±1..2 ulp; hi->req for VBR is taken from the implementation. psy/envelope/mapping float set-up (F8 class) is covered by sanitizer runs only. ctl requests other than RATEMANAGE2_SET: codes and memory safety only.",
    tech="Lean 4 proof over translator-regenerated template tables (decide +kernel) + decision-logic theorems + differential argument grid under sanitizers"),
 }
 
